@@ -1,7 +1,7 @@
 /-
   Props/C16.lean — requested pixel length (`calculate_length`, the Catmull simplification bookkeeping).
   Part 1: structural theorems (every `Scalar` instance, no arithmetic law: they hold for the IEEE instance).
-  Part 2 (law-dependent, exact arithmetic) is in Props/C16Laws.lean.
+  Part 2 (law-dependent, exact arithmetic): `lengths_monotone` under the explicit hypotheses `MonoLaws`.
 -/
 import RosuModel.Model.Curve
 import RosuModel.Lemmas.Outcome
@@ -456,6 +456,44 @@ theorem new_lengths_head_zero (fuel : Nat) (mode : GameMode) (pts : List (PathCo
   exact lengths_head_zero _ _ _ _ _ h2
 
 end
+
+/-! ### law-dependent: monotone lengths (exact arithmetic) -/
+
+/-- the two order facts monotonicity needs; hypotheses, not axioms. They hold in ℝ/ℚ/ℤ; in IEEE they fail only through
+NaN/overflow (`a + x` rounds monotonically), which is what the harness oracle tests. -/
+structure MonoLaws (P F : Type) [Scalar P] [Scalar F] [Cvt P F] : Prop where
+  len_nonneg : ∀ v : Pos P, Scalar.le (0 : F) (Cvt.up (Pos.length F v)) = true
+  le_add : ∀ a x : F, Scalar.le (0 : F) x = true → Scalar.le a (a + x) = true
+
+/-- consecutive entries never decrease. -/
+def Mono : List F → Prop
+  | a :: b :: rest => Scalar.le a b = true ∧ Mono (b :: rest)
+  | _ => True
+
+/-- **`lengths_monotone`** (exact arithmetic): the natural cumulative lengths never decrease, starting from
+`optimized_len`. -/
+theorem lengths_monotone (laws : MonoLaws P F) (c : F) (path : List (Pos P)) :
+    Mono (c :: (cumLens c path).1) := by
+  induction path generalizing c with
+  | nil => trivial
+  | cons a t ih =>
+    cases t with
+    | nil => trivial
+    | cons b t' =>
+      rw [cumLens_cons2]
+      exact ⟨laws.le_add c _ (laws.len_nonneg _), ih _⟩
+
+/-- the laws are satisfiable: the toy arithmetic on `Int`. -/
+theorem monoLaws_int : MonoLaws Int Int where
+  len_nonneg v := by
+    show decide ((0 : Int) ≤ _) = true
+    simp only [decide_eq_true_eq]
+    exact Int.natCast_nonneg _
+  le_add a x h := by
+    have h' : (0 : Int) ≤ x := by simpa [Scalar.le] using h
+    show decide (a ≤ a + x) = true
+    simp only [decide_eq_true_eq]
+    omega
 
 /-! ### non-vacuity: a toy arithmetic on `Int` (no law is needed by the theorems above) -/
 
